@@ -838,7 +838,10 @@ def main():
         ev = {"property_id": prop, "tier": tier, "seed": seed, "level": pinfo.get("level", "proof"), "coverage": cov,
               "assumptions": assumptions, "wall_s": round(time.time() - t_start, 1), "violations": len(violations)}
         os.makedirs(os.path.join(VERIF, "evidence"), exist_ok=True)
-        json.dump(ev, open(os.path.join(VERIF, "evidence", prop + ".json"), "w"), indent=1)
+        if only and not replay_file:
+            log("--only run: evidence file left untouched (it must describe the whole check)")
+        else:
+            json.dump(ev, open(os.path.join(VERIF, "evidence", prop + ".json"), "w"), indent=1)
 
         # --- report ---------------------------------------------------------------------------------
         for o in discharged:
